@@ -177,8 +177,12 @@ def r11_2(ctx: Ctx) -> RuleResult:
 
         FIRST = "<first element of self.finditer(data, filter_context=filter_context)>"
 
+        FIRST_OR_NONE = FIRST + " or None"
+
         def on_call(c: ast.Call, args, env):  # type: ignore[no-untyped-def]
-            if callee_name(c) == "next" and len(c.args) == 1 and not c.keywords:
+            if callee_name(c) == "next" and len(c.args) in (1, 2) and not c.keywords:
+                if len(c.args) == 2 and not (isinstance(c.args[1], ast.Constant) and c.args[1].value is None):
+                    return None
                 a = c.args[0]
                 if isinstance(a, ast.Call) and callee_name(a) == "iter" and len(a.args) == 1:
                     a = a.args[0]
@@ -186,7 +190,7 @@ def r11_2(ctx: Ctx) -> RuleResult:
                     isinstance(a, ast.Call) and isinstance(a.func, ast.Attribute) and a.func.attr == "finditer"
                     and path_of(a.func.value) == "self" and _forwards(a, ["data"], ["filter_context"])
                 ):
-                    return FIRST
+                    return FIRST if len(c.args) == 1 else FIRST_OR_NONE
             return None
 
         ex = Explorer(ctx.folder, m, None, on_call)
@@ -197,7 +201,7 @@ def r11_2(ctx: Ctx) -> RuleResult:
         for (kind, node, value), env in zip(outs, ex.envs):
             hs = env.get("$handlers") or ()
             if not hs:
-                if kind == "return" and value == FIRST:
+                if kind == "return" and value in (FIRST, FIRST_OR_NONE):
                     saw_first = True
                 else:
                     ok = False
